@@ -97,6 +97,10 @@ class Check(FormulaCheck):
         a, k = rnd.randint(1, L + 3), rnd.randint(0, L + 2)
         g = self.ev('MID(v_s,v_a,v_k)', v_s=s, v_a=a, v_k=k)
         self.expect('C15/MID', g == s[a - 1:a - 1 + k], s=s, start=a, count=k, got=g)
+        # characters are numbered from 1: position 0 or a negative one requests no inner characters at all - an error, never the text's tail
+        bad = rnd.choice([0, -1, -2, -L, -L - 1])
+        g = self.ev('MID(v_s,v_a,v_k)', v_s=s, v_a=bad, v_k=max(k, 1))
+        self.expect('C15/MID:start-before-the-first-character-yields-text', self.is_err(g), s=s, start=bad, count=max(k, 1), got=g)
         t2 = rs(rnd, maxlen=20)
         la, lb, lab = self.ev('LEN(v_a)', v_a=s), self.ev('LEN(v_b)', v_b=t2), self.ev('LEN(v_a&v_b)', v_a=s, v_b=t2)
         self.expect('C15/LEN', la == len(s) and lb == len(t2), a=s, b=t2, got=(la, lb), expected=(len(s), len(t2)))
@@ -136,6 +140,13 @@ class Check(FormulaCheck):
 
     def subst(self, rnd):
         rec = self.rec
+        # nothing to look for, or nowhere to look: no occurrence, so the text comes back unchanged (never new text squeezed between the characters)
+        s0, w0 = rs(rnd, maxlen=12), rnd.choice(['', 'Q', '--', rs(rnd, 2)])
+        for f, args, exp in (('SUBSTITUTE(v_s,"",v_w)', dict(v_s=s0, v_w=w0), s0), ('SUBSTITUTE(v_s,"",v_w,1)', dict(v_s=s0, v_w=w0), s0),
+                             ('SUBSTITUTE("",v_o,v_w)', dict(v_o=s0 or 'a', v_w=w0), ''), ('SUBSTITUTE("","",v_w)', dict(v_w=w0), '')):
+            g = self.ev(f, **args)
+            self.expect('C15/SUBSTITUTE:empty-old-or-empty-text-changes-the-text', g == exp, formula=f, arguments=args, got=g, expected=exp)
+            rec.nt(('subst-empty', f, s0, w0))
         old = rs(rnd, rnd.randint(1, 3))
         if not old or any(old[:i] == old[-i:] for i in range(1, len(old))):
             return
